@@ -234,11 +234,6 @@ static void h2_callback(int kind, const void* obj, std::size_t arg)
     if(g_fence_base != nullptr && f >= g_fence_base && f < g_fence_base + g_fence_count)
       log_event(k, std::size_t(f - g_fence_base));
   }
-  else if(kind == 20 || kind == 21)
-  {
-    // hook H2b (domain_assembler.hpp): `_thread_mutex` acquired / about to be released around combine()
-    log_event(kind, 0u);
-  }
   else
   {
     perturb();
